@@ -6,7 +6,8 @@ open ArrModel Driver
 /-- positions at which the values inserted at (old-array) positions `idxs` end up: k-th smallest index + k -/
 def landing (idxs : List Nat) : List Nat := (sortNat idxs).zipIdx.map (fun p => p.1 + p.2)
 
-def handle (op : String) (args : List String) : Option String :=
+/-- one call -/
+def handle1 (op : String) (args : List String) : Option String :=
   match op, args with
   | "delete", [a, idx, ax] => do
     let a ← parseArr? a; let idx ← parseNatList? idx; let ax ← parseOpt? parseNat? ax
@@ -33,7 +34,45 @@ def handle (op : String) (args : List String) : Option String :=
   | "trimc", [a, _codes] => do
     let a ← parseArr? a
     some (showRes showArr (a.trimZeros 0))
+  -- aliasing: the receiver itself is passed as the `values` argument (`a.append(&a, None)`, `a.insert(&idx, &a, None)`)
+  | "append_self", [a] => do
+    let a ← parseArr? a
+    some (showRes showArr (.ok (a.appendFlat a)))
+  | "insert_self", [a, idx] => do
+    let a ← parseArr? a; let idx ← parseNatList? idx
+    some (showRes showArr (a.insertFlat idx a))
   | _, _ => none
+
+/-- the token list cut at every separator token -/
+def splitTok (sep : String) : List String → List (List String)
+  | [] => [[]]
+  | x :: xs =>
+    match splitTok sep xs with
+    | [] => [[x]]
+    | g :: gs => if x == sep then [] :: g :: gs else (x :: g) :: gs
+
+/-- spellings added for the robustness streams (part 2); every compared answer still comes from `handle1`, i.e. from the very
+model definitions:
+* `n call…` — huge arrays on which the list-backed model is too slow (`applyAlongAxis` is quadratic: 41 s for a delete along
+  axis 1 of [2,20000]; 66 000 sequential `vecInsert`s take 24 s): the driver answers `ok native` and the harness judges the crate
+  by its native index-filter reference, which it compares with the full answer of `handle1` on every other case of the same run
+  (`oracle_report` lines);
+* `seq call / call / …` — several calls executed one after the other on the same thread (hidden-state streams: a delete request
+  followed by a different request of the same length / sum / xor / polynomial hash / FNV fingerprint, a refused call followed by a
+  valid one, A–B–A); the model is a function, so every call is answered on its own. -/
+def handleOne (op : String) (args : List String) : Option String :=
+  match op, args with
+  | "n", _ :: _ => some "ok native"
+  | "oracle_report", _ => some "ok report"
+  | _, _ => handle1 op args
+
+def handle (op : String) (args : List String) : Option String :=
+  match op, args with
+  | "seq", _ => do
+    let parts := splitTok "/" args
+    let answers ← parts.mapM (fun p => match p with | o :: as => handleOne o as | [] => none)
+    some (" / ".intercalate answers)
+  | _, _ => handleOne op args
 
 end Driver.C13
 
